@@ -7,12 +7,14 @@ import (
 	"image"
 	"os"
 	"os/exec"
+	"reflect"
 	"runtime"
 	"runtime/debug"
 	"strconv"
 	"strings"
 	"sync"
 	"sync/atomic"
+	"syscall"
 	"time"
 
 	webp "github.com/deepteams/webp"
@@ -78,8 +80,9 @@ func payloadMutate(r *RNG, src []byte) []byte {
 	return b
 }
 
-func c05Inputs(seed uint64, tier string) []cInput {
+func c05Inputs(seed uint64, tier string) ([]cInput, []CountCase) {
 	in, seeds := containerInputs(seed, tier)
+	var counts []CountCase
 	var out []cInput
 	for i, x := range in {
 		if strings.HasPrefix(x.kind, "sweep") && i%5 != 0 {
@@ -146,6 +149,49 @@ func c05Inputs(seed uint64, tier string) []cInput {
 			}
 		}
 		out = append(merged, extra[k:]...)
+
+		// animations with >= 3 frames of which EXACTLY ONE has a damaged VP8 / VP8L / ALPH payload (all chunk
+		// sizes and the frame headers intact, so the container parsers accept the file and only that frame's
+		// codec fails): sources are the multi-frame animations of BuildSeeds (mux/*, anim/*), of WideSeeds and
+		// the ones built here (3..6 small frames of both codecs through animation.Encoder and mux.Muxer, and
+		// 1/2/3/29/30/31 tiny frames - FrameCounts). This is the input class on which DecodeFramesParallel and
+		// DecodeFrames must agree frame by frame and on which the caller carries on after the error.
+		built, fcs := c05BuildAnims(seed)
+		counts = append(counts, fcs...)
+		var multi [][]byte
+		for _, s := range seeds {
+			if len(c05AnimFrames(s.Data)) >= 3 {
+				multi = append(multi, s.Data)
+			}
+		}
+		for _, s := range wide {
+			if len(c05AnimFrames(s.Data)) >= 3 && len(s.Data) < 20000 {
+				multi = append(multi, s.Data)
+			}
+		}
+		var extra2 []cInput
+		for _, s := range built {
+			extra2 = append(extra2, cInput{s.Data, s.Name})
+			if len(c05AnimFrames(s.Data)) >= 3 {
+				multi = append(multi, s.Data)
+			}
+		}
+		nOne := 160
+		if tier == "thorough" {
+			nOne = 8000
+		}
+		for i := 0; i < nOne && len(multi) > 0; i++ {
+			r := NewRNG(seed, uint64(9990000+i))
+			if b, what, ok := c05DamageOneFrame(r, multi[i%len(multi)]); ok {
+				extra2 = append(extra2, cInput{b, "onedamaged:" + what})
+			}
+		}
+		// metadata chunks whose length sits on the byte thresholds (BlobLens: 8, 1024, 4096, 65536 +-1) in
+		// hand-assembled extended files
+		metas, mcs := c05MetaLenInputs(seed, tier)
+		counts = append(counts, mcs...)
+		extra2 = append(extra2, metas...)
+		out = c05Spread(out, extra2)
 	}
 	// streams of the random VP8L writer (gen_vp8l.go) as simple lossless files: codec interiors the
 	// encoder never produces - any transform chain, code shapes, cache sizes, and (narrow variant)
@@ -192,14 +238,271 @@ func c05Inputs(seed uint64, tier string) []cInput {
 		}
 	}
 	merged = append(merged, syn[k:]...)
-	return merged
+	return merged, counts
+}
+
+// c05Spread distributes extra evenly over out (the list is cut into contiguous per-worker ranges).
+func c05Spread(out, extra []cInput) []cInput {
+	if len(extra) == 0 {
+		return out
+	}
+	merged := make([]cInput, 0, len(out)+len(extra))
+	every := len(out)/len(extra) + 1
+	k := 0
+	for i, x := range out {
+		merged = append(merged, x)
+		if (i+1)%every == 0 && k < len(extra) {
+			merged = append(merged, extra[k])
+			k++
+		}
+	}
+	return append(merged, extra[k:]...)
+}
+
+// c05Span is one sub-chunk (ALPH / VP8 / VP8L) of an ANMF frame: payload offset and size in the file.
+type c05Span struct {
+	tag       string
+	off, size int
+}
+
+// c05AnimFrames lists, per ANMF chunk of a well-formed file, the sub-chunks of the frame.
+func c05AnimFrames(file []byte) [][]c05Span {
+	if len(file) < 20 || string(file[:4]) != "RIFF" || string(file[8:12]) != "WEBP" {
+		return nil
+	}
+	var out [][]c05Span
+	for _, c := range scanChunks(file) {
+		if c.size < 16 || c.off+8+c.size > len(file) || string(file[c.off:c.off+4]) != "ANMF" {
+			continue
+		}
+		var subs []c05Span
+		pos, end := c.off+8+16, c.off+8+c.size
+		for pos+8 <= end {
+			n := int(uint32(file[pos+4]) | uint32(file[pos+5])<<8 | uint32(file[pos+6])<<16 | uint32(file[pos+7])<<24)
+			if n < 0 || pos+8+n > end {
+				break
+			}
+			subs = append(subs, c05Span{string(file[pos : pos+4]), pos + 8, n})
+			pos += 8 + n + n&1
+		}
+		out = append(out, subs)
+	}
+	return out
+}
+
+// c05DamageOneFrame damages the payload bytes of ONE sub-chunk of ONE frame of an animation with at least
+// three frames; the first bytes of the payload (VP8L: 5, VP8: 10, ALPH: 1 - what the container-level
+// parsers look at) and every size field stay as they are.
+func c05DamageOneFrame(r *RNG, file []byte) ([]byte, string, bool) {
+	frames := c05AnimFrames(file)
+	if len(frames) < 3 {
+		return nil, "", false
+	}
+	for try := 0; try < 8; try++ {
+		fi := r.Intn(len(frames))
+		subs := frames[fi]
+		if len(subs) == 0 {
+			continue
+		}
+		sp := subs[len(subs)-1] // the image chunk comes last
+		if len(subs) > 1 && r.Chance(1, 3) {
+			sp = subs[r.Intn(len(subs)-1)]
+		}
+		hdr := map[string]int{"VP8L": 5, "VP8 ": 10, "ALPH": 1}[sp.tag]
+		if hdr == 0 || sp.size <= hdr+2 {
+			continue
+		}
+		b := append([]byte(nil), file...)
+		p := b[sp.off+hdr : sp.off+sp.size]
+		kind := r.Intn(6)
+		what := ""
+		fill := func(q []byte, mode int) {
+			for i := range q {
+				switch mode {
+				case 0:
+					q[i] = 0
+				case 1:
+					q[i] = 0xff
+				default:
+					q[i] = byte(r.Next())
+				}
+			}
+		}
+		switch kind {
+		case 0, 1: // zero / randomise a run in the middle
+			l := 2 + r.Intn(mini(30, len(p)-1))
+			if l > len(p) {
+				l = len(p)
+			}
+			st := (len(p) - l) / 2
+			if len(p)-l > 0 {
+				st = r.Intn(len(p) - l + 1)
+				if r.Bool() {
+					st = (len(p) - l) / 2
+				}
+			}
+			fill(p[st:st+l], []int{0, 2}[kind])
+			what = []string{"zero-run", "random-run"}[kind]
+		case 2, 3: // the bitstream ends early inside the chunk: its tail is overwritten
+			st := len(p)/4 + r.Intn(len(p)/2+1)
+			fill(p[st:], []int{0, 1}[kind-2])
+			what = []string{"tail-zero", "tail-ff"}[kind-2]
+		case 4: // everything behind the header bytes is noise
+			fill(p, 2)
+			what = "noise-body"
+		case 5: // a burst right behind the header (transform / segment / partition headers)
+			l := mini(len(p), 1+r.Intn(6))
+			fill(p[:l], 2)
+			what = "head-burst"
+		}
+		if bytes.Equal(b, file) {
+			continue
+		}
+		return b, fmt.Sprintf("%s:%s:frame%d/%d", what, strings.TrimSpace(sp.tag), fi, len(frames)), true
+	}
+	return nil, "", false
+}
+
+// c05TinyStreams: a pool of tiny frame bitstreams of both codecs (lossless, lossy, lossy + ALPH) of one size.
+func c05TinyStreams(r *RNG, w, h, n int) [][]byte {
+	var out [][]byte
+	for i := 0; i < n; i++ {
+		switch i % 3 {
+		case 0:
+			out = append(out, rawFrame(r, w, h, true, []int{AlphaNone, AlphaBinary, AlphaGradient}[r.Intn(3)]))
+		case 1:
+			out = append(out, rawFrame(r, w, h, false, AlphaNone))
+		default:
+			v, a := lossyWithAlpha(r, w, h, []int{AlphaGradient, AlphaBinary, AlphaFewLevels}[r.Intn(3)], nil)
+			out = append(out, alphPrefixed(a, v))
+		}
+	}
+	return out
+}
+
+// c05BuildAnims: animations built here - (i) frame counts around the frame thresholds of the code
+// (FrameCounts(40): 1, 2, 3 = serial fallback vs parallel frame decoding, 29, 30, 31) out of tiny frames
+// through mux.Muxer, (ii) 3..6 small frames of both codecs through mux.Muxer (sub-frames with offsets,
+// both blend and dispose modes) and through animation.Encoder (lossless, lossy, mixed).
+func c05BuildAnims(seed uint64) ([]Seed, []CountCase) {
+	var out []Seed
+	var counts []CountCase
+	r := NewRNG(seed, 0xC05A0001)
+	tiny := c05TinyStreams(r, 2+r.Intn(3), 2+r.Intn(3), 9)
+	for ci, fc := range FrameCounts(40) {
+		if fc.N < 1 {
+			continue
+		}
+		m := mux.NewMuxer()
+		for i := 0; i < fc.N; i++ {
+			_ = m.AddFrame(tiny[(i+ci)%len(tiny)], &mux.FrameOptions{Duration: 10 + i, BlendMode: mux.BlendMode(i % 2), DisposeMode: mux.DisposeMode((i / 2) % 2)})
+		}
+		m.SetLoopCount(ci)
+		var buf bytes.Buffer
+		if err := m.Assemble(&buf); err == nil {
+			out = append(out, Seed{Name: "framecount:" + fc.String(), Data: buf.Bytes()})
+			counts = append(counts, fc)
+		}
+	}
+	for k := 0; k < 4; k++ {
+		w, h := 8+4*k, 8+3*k
+		st := c05TinyStreams(r, w, h, 3)
+		sub := c05TinyStreams(r, w/2, h/2, 3)
+		m := mux.NewMuxer()
+		nf := 3 + (k+int(seed))%4
+		for i := 0; i < nf; i++ {
+			if i == 0 || i%3 == 0 {
+				_ = m.AddFrame(st[(i+k)%3], &mux.FrameOptions{Duration: 20 + i, DisposeMode: mux.DisposeMode(i % 2)})
+			} else {
+				_ = m.AddFrame(sub[(i+k)%3], &mux.FrameOptions{Duration: 20 + i, OffsetX: 2 * (i % 3), OffsetY: 2 * (k % 2), BlendMode: mux.BlendMode(i % 2), DisposeMode: mux.DisposeMode((i + k) % 2)})
+			}
+		}
+		m.SetCanvasSize(w, h)
+		var buf bytes.Buffer
+		if err := m.Assemble(&buf); err == nil {
+			out = append(out, Seed{Name: fmt.Sprintf("builtanim:mux:%d-frames", nf), Data: buf.Bytes()})
+		}
+	}
+	for k := 0; k < 3; k++ {
+		var buf bytes.Buffer
+		w, h := 10+3*k, 9+2*k
+		enc := animation.NewEncoder(&buf, w, h, &animation.EncodeOptions{Lossless: k == 0, Quality: 70, AllowMixed: k == 2, Kmax: 2 * k})
+		nf := 3 + (k+int(seed))%4
+		for i := 0; i < nf; i++ {
+			// every picture differs from its predecessor everywhere, so that no frame is merged away
+			fr := GenImage(r, w, h, []int{ClsNoise, ClsPhoto, ClsPal16}[(i+k)%3], []int{AlphaNone, AlphaBinary, AlphaGradient}[(i+k)%3])
+			_ = enc.AddFrame(fr, time.Duration(40+i)*time.Millisecond)
+		}
+		if err := enc.Close(); err == nil {
+			out = append(out, Seed{Name: fmt.Sprintf("builtanim:enc:%d-pictures", nf), Data: buf.Bytes()})
+		}
+	}
+	return out, counts
+}
+
+// c05MetaLenInputs: hand-assembled VP8X files (still and two-frame animation) with one ICCP / EXIF / XMP
+// chunk whose length is drawn from BlobLens(1<<17).
+func c05MetaLenInputs(seed uint64, tier string) ([]cInput, []CountCase) {
+	lens := BlobLens(1 << 17)
+	n := 5
+	if tier == "thorough" {
+		n = len(lens)
+	}
+	var out []cInput
+	var counts []CountCase
+	r := NewRNG(seed, 0xC05A0002)
+	o := webp.DefaultOptions()
+	o.Lossless = true
+	o.Method = 1
+	w, h := 3+r.Intn(6), 2+r.Intn(6)
+	vp8l := firstChunkPayload(mustEncode(GenImage(r, w, h, ClsPal16, AlphaNone), o))
+	for k := 0; k < n && k < len(lens); k++ {
+		c := lens[(k*5+int(seed)*3)%len(lens)]
+		if tier == "thorough" {
+			c = lens[k]
+		}
+		blob := r.Bytes(c.N)
+		which := (k + int(seed)) % 3
+		flag := []byte{0x20, 0x08, 0x04}[which]
+		tag := []string{"ICCP", "EXIF", "XMP "}[which]
+		var body []byte
+		if k%2 == 0 { // still: VP8X [ICCP] VP8L [EXIF] [XMP]
+			body = chunk("VP8X", vp8xPayload(flag, w, h))
+			if which == 0 {
+				body = append(body, chunk(tag, blob)...)
+			}
+			body = append(body, chunk("VP8L", vp8l)...)
+			if which != 0 {
+				body = append(body, chunk(tag, blob)...)
+			}
+		} else { // animation: VP8X [ICCP] ANIM ANMF ANMF ANMF [EXIF] [XMP]
+			body = chunk("VP8X", vp8xPayload(flag|0x02, w, h))
+			if which == 0 {
+				body = append(body, chunk(tag, blob)...)
+			}
+			body = append(body, chunk("ANIM", []byte{0, 0, 0, 0, 0, 0})...)
+			for i := 0; i < 3; i++ {
+				ap := append(append(append(append(append(le24(0), le24(0)...), le24(w-1)...), le24(h-1)...), le24(30+i)...), byte(i&1))
+				body = append(body, chunk("ANMF", append(ap, chunk("VP8L", vp8l)...))...)
+			}
+			if which != 0 {
+				body = append(body, chunk(tag, blob)...)
+			}
+		}
+		out = append(out, cInput{riff(body), "metalen:" + c.String()})
+		counts = append(counts, c)
+	}
+	return out, counts
 }
 
 // suiteC05 (parent): every input goes through all decoding entry points in child processes; a crash
 // or hang of a child is attributed to the input it was working on.
 func suiteC05(rep *Report) error {
-	rep.Rule = "inputs: seed corpus, structure-aware container mutations, hand-assembled layouts, random bytes, RIFF-size sweeps, payload-only mutations (codecs see the damage), declared-dimension extremes, threshold-crossing valid files (widths 1023,1024,1025,1100,2047,2048,2049,4097 x heights 1..4 as lossy, lossy+alpha, lossless and ANMF frames with small payloads - thresholds.go / WideSeeds - whole and payload-mutated), streams of the random VP8L writer as simple lossless files (any transform chain / code shapes / cache sizes; 3 of 5 are pictures of width 1..8 dense in short 2-D distance codes, incl. those mapping to a distance below 1); each input runs through Decode, DecodeConfig, GetFeatures, image.Decode, animation.DecodeBytes->DecodeFrames->DecodeFramesParallel->NewAnimDecoder->NextFrame*, mux.NewDemuxer+Frame+GetChunk in child processes (panic in any goroutine, hang > 40 s (thorough: 90 s), allocation beyond 64*len + 40*declared_area*(1+frames) + 16 MiB, or a malformed returned image = violation); non-trivial = some entry point accepted the input"
-	inputs := c05Inputs(rep.Seed, rep.Tier)
+	rep.Rule = "inputs: seed corpus, structure-aware container mutations, hand-assembled layouts, random bytes, RIFF-size sweeps, payload-only mutations (codecs see the damage), declared-dimension extremes, threshold-crossing valid files (widths 1023,1024,1025,1100,2047,2048,2049,4097 x heights 1..4 as lossy, lossy+alpha, lossless and ANMF frames with small payloads - thresholds.go / WideSeeds - whole and payload-mutated), animations built here (1,2,3,29,30,31 tiny frames - FrameCounts - through mux.Muxer; 3..6 small frames of both codecs through mux.Muxer and animation.Encoder), ~160 animations of >= 3 frames with EXACTLY ONE damaged VP8/VP8L/ALPH frame payload (sizes and headers intact: zero/random runs, overwritten tails, noise bodies), hand-assembled VP8X stills/animations with an ICCP/EXIF/XMP chunk of a length on the byte thresholds (BlobLens: 8,1024,4096,65536 +-1), streams of the random VP8L writer as simple lossless files (any transform chain / code shapes / cache sizes; 3 of 5 are pictures of width 1..8 dense in short 2-D distance codes, incl. those mapping to a distance below 1); each input runs through Decode, DecodeConfig, GetFeatures, image.Decode, animation.DecodeBytes->DecodeFrames->NewAnimDecoder->NextFrame*, mux.NewDemuxer+Frame+GetChunk in child processes (panic in any goroutine, hang = 40 s (thorough: 90 s) of the child's CPU time or 3x that of wall time on one input, allocation beyond 64*len + 40*declared_area*(1+frames) + 16 MiB, or a malformed returned image = violation); an independent copy of every parsed animation goes through DecodeFramesParallel and is then USED whatever the call returned: every Frame.Image must be nil or a well-formed image whose dynamic value is not a nil pointer (reflect), Frame.Bounds / NewAnimDecoder / NextFrame up to the first error / Reset / replay must not panic (the play-through is skipped for canvases above 65536 pixels when the parallel call succeeded), and parallel must equal serial (same error, frame i has an image iff it decodes serially, a DecodeFrames retry reports the same error); non-trivial = some entry point accepted the input"
+	inputs, countCases := c05Inputs(rep.Seed, rep.Tier)
+	for _, c := range countCases {
+		CountCount(rep, c)
+	}
 	dir, err := os.MkdirTemp("", "c05")
 	if err != nil {
 		return err
@@ -323,11 +626,22 @@ func suiteC05(rep *Report) error {
 			if acc {
 				rep.Count("accepted-by-some-entry-point")
 			}
+			// animations: how many frames failed to decode (the parallel-vs-serial oracle ran on them)
+			if k := strings.Index(r.detail, " anim="); k >= 0 {
+				f := strings.Fields(r.detail[k+1:])[0]
+				rep.Count("anim-frames-failing:" + c05FailBucket(f))
+				if kind == "onedamaged" || kind == "framecount" || kind == "builtanim" {
+					rep.Count(kind + ":frames-failing:" + c05FailBucket(f))
+				}
+			}
 		case "viol":
 			rep.Eval(true, in.data)
-			parts := strings.SplitN(strings.TrimPrefix(r.detail, "VIOL "), " ", 2)
-			rep.Add(Finding{Kind: "property", Property: "C05", Signature: parts[0], Detail: fmt.Sprintf("%s (%s, %d bytes)", r.detail, in.kind, len(in.data)),
-				Input: map[string]any{"op": "c05", "hex": hx(in.data)}})
+			// one input can violate several oracles: "VIOL sig detail ;; VIOL sig detail ..."
+			for _, one := range strings.Split(r.detail, c05ViolSep) {
+				parts := strings.SplitN(strings.TrimPrefix(one, "VIOL "), " ", 2)
+				rep.Add(Finding{Kind: "property", Property: "C05", Signature: parts[0], Detail: fmt.Sprintf("%s (%s, %d bytes)", one, in.kind, len(in.data)),
+					Input: map[string]any{"op": "c05", "hex": hx(in.data)}})
+			}
 		case "crash", "hang":
 			rep.Eval(true, in.data)
 			sig := r.status + ":" + panicClass(r.detail)
@@ -346,6 +660,28 @@ func suiteC05(rep *Report) error {
 	}
 	sortFindings(rep)
 	return nil
+}
+
+const c05ViolSep = " ;; "
+
+// c05FailBucket: "anim=<failing>/<frames>:<path>" -> 0 | 1 | 2+ failing frames, with the decode path
+// (serial fallback for <= 2 frames, parallel above).
+func c05FailBucket(f string) string {
+	var a, b int
+	var path string
+	f = strings.TrimPrefix(f, "anim=")
+	if k := strings.Index(f, ":"); k >= 0 {
+		path = f[k+1:]
+		f = f[:k]
+	}
+	fmt.Sscanf(f, "%d/%d", &a, &b)
+	switch {
+	case a == 0:
+		return "0:" + path
+	case a == 1:
+		return "1:" + path
+	}
+	return "2+:" + path
 }
 
 func firstPanicLine(s string) string {
@@ -453,19 +789,29 @@ func suiteC05Child(rep *Report) error {
 	idx := -1
 	var cur int64 = -1
 	var curStart time.Time
+	var curCPU time.Duration
 	var mu sync.Mutex
 	limit := 90 * time.Second
 	if v, err := strconv.Atoi(os.Getenv("C05_HANG_S")); err == nil && v > 0 {
 		limit = time.Duration(v) * time.Second
 	}
 	go func() { // watchdog
+		// An input counts as hanging when this process has burnt `limit` of CPU time on it (a spinning
+		// goroutine on an idle machine: after `limit` of wall time, as before) or when 3 x limit of wall
+		// time have passed (blocked without using CPU). Measuring CPU time keeps a machine that is
+		// overcommitted many times over (a 4-megapixel canvas then takes a minute of wall time) from
+		// producing hang findings for inputs that are merely slow.
 		for {
 			time.Sleep(500 * time.Millisecond)
 			mu.Lock()
-			c, st := cur, curStart
+			c, st, cpu0 := cur, curStart, curCPU
 			mu.Unlock()
-			if c >= 0 && time.Since(st) > limit {
-				fmt.Fprintf(os.Stderr, "C05-HANG in %s: input %d still running after %v\n", c05Entry.Load().(string), c, limit)
+			if c < 0 {
+				continue
+			}
+			wall, cpu := time.Since(st), c05CPUTime()-cpu0
+			if cpu > limit || wall > 3*limit {
+				fmt.Fprintf(os.Stderr, "C05-HANG in %s: input %d still running after %v (wall %v, cpu %v)\n", c05Entry.Load().(string), c, limit, wall.Round(time.Second), cpu.Round(time.Second))
 				os.Exit(3)
 			}
 		}
@@ -482,7 +828,7 @@ func suiteC05Child(rep *Report) error {
 		fmt.Fprintf(fo, "S %d\n", idx)
 		fo.Sync()
 		mu.Lock()
-		cur, curStart = int64(idx), time.Now()
+		cur, curStart, curCPU = int64(idx), time.Now(), c05CPUTime()
 		mu.Unlock()
 		res := c05One(data)
 		mu.Lock()
@@ -491,6 +837,15 @@ func suiteC05Child(rep *Report) error {
 		fmt.Fprintf(fo, "R %d %s\n", idx, res)
 	}
 	return nil
+}
+
+// c05CPUTime: user + system CPU time of this process (all threads).
+func c05CPUTime() time.Duration {
+	var ru syscall.Rusage
+	if err := syscall.Getrusage(syscall.RUSAGE_SELF, &ru); err != nil {
+		return 0
+	}
+	return time.Duration(ru.Utime.Nano() + ru.Stime.Nano())
 }
 
 // c05Entry names the entry point the child is in (for the watchdog's message).
@@ -587,6 +942,8 @@ func c05One(data []byte) string {
 		return "ok"
 	})
 	framesPlayed := 0
+	var animA, animB *animation.Animation
+	var perr, serr error
 	try("animation", func() string {
 		a, err := animation.DecodeBytes(data)
 		if err != nil {
@@ -598,8 +955,11 @@ func c05One(data []byte) string {
 		// parallel decode on a copy first, then the serial one
 		b := *a
 		b.Frames = append([]animation.Frame(nil), a.Frames...)
-		_ = b.DecodeFramesParallel()
-		if err := a.DecodeFrames(); err != nil {
+		perr = b.DecodeFramesParallel()
+		animB = &b
+		serr = a.DecodeFrames()
+		animA = a
+		if serr != nil {
 			return "err-frames"
 		}
 		dec, err := animation.NewAnimDecoder(a)
@@ -634,5 +994,197 @@ func c05One(data []byte) string {
 	if alloc > bound {
 		return fmt.Sprintf("VIOL alloc:exceeds-bound allocated %d bytes for %d input bytes, declared area %d, frames %d (bound %d)", alloc, len(data), area, nfr, bound)
 	}
-	return fmt.Sprintf("acc=%d alloc=%d", acc, alloc)
+	// the copy that went through DecodeFramesParallel is used as a caller would use it, whatever the call
+	// returned, and compared frame by frame with the serial decode (outside the allocation window above)
+	info := ""
+	if animA != nil && animB != nil {
+		c05Entry.Store("animation-after-DecodeFramesParallel")
+		var viols []string
+		viols, info = c05AfterParallel(animA, animB, perr, serr)
+		if len(viols) > 0 {
+			return strings.Join(viols, c05ViolSep)
+		}
+	}
+	return fmt.Sprintf("acc=%d alloc=%d%s", acc, alloc, info)
+}
+
+// c05TypedNil reports whether img is a non-nil interface whose dynamic value is a nil pointer (or other
+// nil-able kind) - without calling a method on it.
+func c05TypedNil(img image.Image) bool {
+	if img == nil {
+		return false
+	}
+	v := reflect.ValueOf(img)
+	switch v.Kind() {
+	case reflect.Ptr, reflect.Map, reflect.Slice, reflect.Func, reflect.Interface, reflect.Chan, reflect.UnsafePointer:
+		return v.IsNil()
+	}
+	return false
+}
+
+func c05ErrClass(err error) string {
+	if err == nil {
+		return "nil"
+	}
+	return err.Error()
+}
+
+// c05AfterParallel: a is the animation after the serial DecodeFrames (error serr), b an independent copy
+// after DecodeFramesParallel (error perr). Oracles:
+//
+//	(a) every b.Frames[i].Image is nil or a well-formed image whose dynamic value is not a nil pointer;
+//	(b) best-effort use of b - Frame.Bounds / HasImage of every frame, NewAnimDecoder, NextFrame up to the
+//	    first error, Reset, NextFrame - does not panic, snapshots are well-formed and canvas-sized;
+//	(c) parallel == serial: same error; frame i holds an image iff it decodes serially (each frame on its
+//	    own when the parallel path ran, i.e. more than 2 frames to decode; exactly the frames the serial
+//	    call filled in when it fell back to the serial path); a retry of DecodeFrames on b reports the same
+//	    error again (a failed frame is not "already decoded").
+func c05AfterParallel(a, b *animation.Animation, perr, serr error) (viols []string, info string) {
+	n := len(b.Frames)
+	if n != len(a.Frames) {
+		return []string{fmt.Sprintf("VIOL anim:parallel-differs-from-serial frame count changed: %d vs %d", n, len(a.Frames))}, ""
+	}
+	// (a)
+	var typedNil []int
+	dyn := ""
+	for i := range b.Frames {
+		img := b.Frames[i].Image
+		if img == nil {
+			continue
+		}
+		if c05TypedNil(img) {
+			typedNil = append(typedNil, i)
+			dyn = fmt.Sprintf("%T", img)
+			continue
+		}
+		if s, pm := guard(func() string { return imageWellFormed(img) }); s == "panic" {
+			viols = append(viols, fmt.Sprintf("VIOL panic:animation:%s %s (inspecting frame %d of %d after DecodeFramesParallel, error %q)", panicClass(pm), pm, i, n, c05ErrClass(perr)))
+		} else if s != "" {
+			viols = append(viols, fmt.Sprintf("VIOL malformed-result:animation bad:frame %d of %d after DecodeFramesParallel: %s", i, n, s))
+		}
+	}
+	if len(typedNil) > 0 {
+		viols = append(viols, fmt.Sprintf("VIOL malformed-result:animation decode:typed-nil-image: after DecodeFramesParallel (returned %q) frame(s) %v of %d hold a non-nil image.Image whose dynamic value is a nil %s: HasImage() is true, any method call on the image dereferences nil", c05ErrClass(perr), typedNil, n, dyn))
+	}
+	// (b)
+	s, pm := guard(func() string {
+		for i := range b.Frames {
+			f := &b.Frames[i]
+			if f.HasImage() {
+				if bb := f.Bounds(); bb.Dx() <= 0 || bb.Dy() <= 0 {
+					return fmt.Sprintf("bad:frame %d has an image with empty bounds %v", i, bb)
+				}
+			}
+		}
+		if perr == nil && uint64(b.CanvasWidth)*uint64(b.CanvasHeight) > 1<<16 {
+			// every frame decoded: b holds what the serially decoded animation holds, which has been played
+			// already; large canvases are not played a second time (three canvas-sized buffers per decoder)
+			return "ok"
+		}
+		dec, err := animation.NewAnimDecoder(b)
+		if err != nil {
+			return "err-canvas"
+		}
+		rounds := 1
+		if perr != nil {
+			rounds = 2 // after a failed call also the replay after Reset
+		}
+		for round := 0; round < rounds; round++ {
+			for k := 0; dec.HasNext(); k++ {
+				img, _, err := dec.NextFrame()
+				if err != nil {
+					if b.Frames[k].HasImage() {
+						return fmt.Sprintf("bad:NextFrame fails on frame %d although it has an image: %v", k, err)
+					}
+					break
+				}
+				if !b.Frames[k].HasImage() {
+					return fmt.Sprintf("bad:NextFrame succeeds on frame %d which has no image", k)
+				}
+				if w := imageWellFormed(img); w != "" {
+					return "bad:snapshot " + w
+				}
+				if img.Bounds().Dx() != b.CanvasWidth || img.Bounds().Dy() != b.CanvasHeight {
+					return "bad:snapshot bounds differ from canvas"
+				}
+			}
+			dec.Reset()
+		}
+		return "ok"
+	})
+	switch {
+	case s == "panic":
+		viols = append(viols, fmt.Sprintf("VIOL panic:animation:%s %s (carrying on after DecodeFramesParallel returned %q: Frame.Bounds / NewAnimDecoder / NextFrame / Reset; %d frames)", panicClass(pm), pm, c05ErrClass(perr), n))
+	case strings.HasPrefix(s, "bad:"):
+		viols = append(viols, "VIOL malformed-result:animation "+s+fmt.Sprintf(" (after DecodeFramesParallel returned %q)", c05ErrClass(perr)))
+	}
+	// (c)
+	toDecode := 0
+	for i := range a.Frames {
+		if a.Frames[i].BitstreamData != nil {
+			toDecode++
+		}
+	}
+	path := "parallel"
+	if toDecode <= 2 {
+		path = "serial-fallback"
+	}
+	want := make([]bool, n)
+	failing := 0
+	s, pm = guard(func() string {
+		failed := false
+		for i := range a.Frames {
+			switch {
+			case a.Frames[i].BitstreamData == nil:
+				want[i] = a.Frames[i].Image != nil
+			case !failed && a.Frames[i].Image != nil:
+				want[i] = true
+			case !failed:
+				failed = true // the frame DecodeFrames stopped at
+				failing++
+			case path == "parallel":
+				c := *a
+				c.Frames = []animation.Frame{a.Frames[i]}
+				c.Frames[0].Image = nil
+				want[i] = c.DecodeFrames() == nil
+				if !want[i] {
+					failing++
+				}
+			}
+		}
+		return "ok"
+	})
+	if s == "panic" {
+		viols = append(viols, fmt.Sprintf("VIOL panic:animation:%s %s (DecodeFrames on a single frame)", panicClass(pm), pm))
+		return viols, ""
+	}
+	info = fmt.Sprintf(" anim=%d/%d:%s", failing, n, path)
+	if (serr == nil) != (failing == 0) {
+		viols = append(viols, fmt.Sprintf("VIOL anim:serial-decode-inconsistent DecodeFrames returned %q but %d of %d frames have no image", c05ErrClass(serr), failing, n))
+	}
+	var diff []string
+	if c05ErrClass(perr) != c05ErrClass(serr) {
+		diff = append(diff, fmt.Sprintf("DecodeFramesParallel returned %q, DecodeFrames %q", c05ErrClass(perr), c05ErrClass(serr)))
+	}
+	for i := range b.Frames {
+		if has := b.Frames[i].Image != nil; has != want[i] {
+			diff = append(diff, fmt.Sprintf("frame %d: image after the parallel call = %v, decodes serially = %v", i, has, want[i]))
+		}
+	}
+	if len(diff) == 0 {
+		// retry on b: a frame that failed is still undecoded, so the serial retry must report the same error
+		var rerr error
+		if s, pm = guard(func() string { rerr = b.DecodeFrames(); return "ok" }); s == "panic" {
+			viols = append(viols, fmt.Sprintf("VIOL panic:animation:%s %s (DecodeFrames retry after DecodeFramesParallel)", panicClass(pm), pm))
+		} else if c05ErrClass(rerr) != c05ErrClass(serr) {
+			diff = append(diff, fmt.Sprintf("DecodeFrames retried on the animation after DecodeFramesParallel returned %q, expected %q", c05ErrClass(rerr), c05ErrClass(serr)))
+		}
+	}
+	if len(diff) > 0 {
+		if len(diff) > 4 {
+			diff = append(diff[:4], fmt.Sprintf("... %d more", len(diff)-4))
+		}
+		viols = append(viols, fmt.Sprintf("VIOL anim:parallel-differs-from-serial %s (%d frames, %s path)", strings.Join(diff, "; "), n, path))
+	}
+	return viols, info
 }
